@@ -39,7 +39,8 @@ REQUIRED_COUNTERS = ["templates", "paths_compared", "hash_seed_children", "cmdli
 SHARDS = {"quick": 16, "thorough": 32}
 
 _st = {}
-CTX = {"x": "X", "y": "Y", "flag1": "1", "flag0": "", "cv": "CV", "zctx": "ZC"}
+# (values as a command line carries them: text; one of them contains and ends with "=", like a query string)
+CTX = {"x": "X", "y": "Y=1&z=", "flag1": "1", "flag0": "", "cv": "CV", "zctx": "ZC"}
 CHILD = os.path.join(common.VERIF, "mk", "c08_child.py")
 SEEDS = ["0", "1", "2", "3", "random"]
 
